@@ -63,17 +63,46 @@ class CipherModel:
             def enc(it_, args, kw, n):
                 t = Term('aesctr', self.key, self.iv, args[0], K(self.pos))
                 self.pos += length(args[0])
+                out = kw.get('output')
+                if out is not None and not (isinstance(out, K) and out.v is None):
+                    # Cryptodome: with output=<writable buffer of the same length> the result is written there and None is returned
+                    from ..rope import MemView, buf_store, SymBuf
+                    if isinstance(out, MemView):
+                        out.write(it_, t)
+                    elif isinstance(out, K) and isinstance(out.v, (bytearray, SymBuf)):
+                        if len(out.v) != length(args[0]):
+                            raise RaiseEx('ValueError', 'output must have the same length as the input')
+                        buf_store(it_, out, 0, len(out.v), t)
+                    else:
+                        raise Fail('cipher output= into something that is not a bytearray / memoryview')
+                    return K(None)
                 return t
             return Native(enc, 'aes.encrypt')
         if a == 'decrypt':
             def dec(it_, args, kw, n):
                 x = args[0]
+                from ..rope import MemView as _MV
+                if isinstance(x, _MV):
+                    x = x.rope_value(it_)
+
                 at = self.pos
                 self.pos += length(x)
                 if isinstance(x, Term) and x.op == 'aesctr' and repr(it_.vkey(x.a[0])) == repr(it_.vkey(self.key)) and repr(it_.vkey(x.a[1])) == repr(it_.vkey(self.iv)) \
                         and isinstance(x.a[3], K) and x.a[3].v == at:
-                    return x.a[2]
-                return Term('aesctr_garbage', self.key, self.iv, x)
+                    res = x.a[2]
+                else:
+                    res = Term('aesctr_garbage', self.key, self.iv, x)
+                out = kw.get('output')
+                if out is not None and not (isinstance(out, K) and out.v is None):
+                    from ..rope import MemView, buf_store, SymBuf
+                    if isinstance(out, MemView):
+                        out.write(it_, res)
+                    elif isinstance(out, K) and isinstance(out.v, (bytearray, SymBuf)):
+                        buf_store(it_, out, 0, len(out.v), res)
+                    else:
+                        raise Fail('cipher output= into something that is not a bytearray / memoryview')
+                    return K(None)
+                return res
             return Native(dec, 'aes.decrypt')
         return None
 
